@@ -22,12 +22,31 @@
          limits / rejected everywhere) x {open_zipfile, validate_zip_bytesio} x {strict, default, loose limits} +
          {ZipContext, is_odf_encrypted} x default limits = 40 symbols; quick: all ordered pairs, thorough: all triples. Oracle per
          step: rejected <=> reference (clause "history"), validate_zip_bytesio leaves the position alone (clause "position").
+(e) limit VALUES: the limits are quantified over as values of their declared types (three ints, two floats), not only as
+    whole numbers near a convenient threshold - the decision must be "size / ratio exceeds THE GIVEN limit", exactly.
+    (e1) in-memory ZipInfo vectors x four limit lattices, judged by the exact-rational reference (clause "predicate"):
+         "ratio": both ratio limits over RATIO_LIMITS (multiples of 1/4 incl. 0, values below 1, +inf = "switched off"),
+                  all pairs combined, byte/count limits far away; entries over file_size 0..15 x compress_size {0,1,2,4}
+                  (thorough: + 3) + a directory, every vector of <= 2 entries (thorough: 17 quarter steps 0..4, 1/8, 1e12, inf;
+                  + every vector of 3 entries over a reduced alphabet);
+         "mixed": the integer lattice of (a) combined with half-step ratio limits (1.5 / 2.5 total, 2.5 / 3.5 per entry)
+                  over the 43-symbol alphabet of (a), vectors of <= 2 (thorough 3) entries;
+         "degenerate": every limit at 0 / 1 (ratios 0.0 / 0.5), same vectors;
+         "huge": single / total size limits just above 2**53 (where float arithmetic stops being exact) with entry
+                 sizes 2**53-1 .. 2**53+2, vectors of <= 2 entries.
+    (e2) real ZIPs (the 9 minimal documents + a bare one-member ZIP) through open_zipfile and validate_zip_bytesio with
+         caller-supplied limits: one forged member whose per-entry ratio / the container's total ratio sits at L-1/0/+1
+         byte for fractional L (0.5 .. 500.5), the document's OWN largest entry ratio and total ratio bracketed by the two
+         neighbouring quarter steps (nothing forged), and a ZIP64 member at a single-size limit of 2**53+1 -1/0/+1.
+         Oracle: rejected <=> reference on the real infolist under those limits (clause "limits"); validate_zip_bytesio
+         keeps the position (clause "position").
 """
 from __future__ import annotations
 
 import hashlib
 import io
 import itertools
+import math
 import os
 import random
 import zipfile
@@ -40,6 +59,13 @@ FORMATS = ["docx", "pptx", "xlsx", "odt", "odp", "ods", "odg", "odf", "epub"]
 
 
 # ------------------------------------------------------------------ reference predicate
+
+def _exceeds(num, den, limit):
+    """num / den > limit, decided exactly (den > 0; limit an int or a float, +-inf included)."""
+    if isinstance(limit, float) and math.isinf(limit):
+        return limit < 0
+    return Fraction(num, den) > Fraction(limit)
+
 
 def ref_is_bomb(entries, lim):
     """entries: list of (file_size, compress_size, is_dir); lim: dict of the five limits. Exact rationals."""
@@ -54,7 +80,7 @@ def ref_is_bomb(entries, lim):
         if fs > 0:
             if cs <= 0:
                 return True
-            if Fraction(fs, cs) > Fraction(lim["max_entry_compression_ratio"]):
+            if _exceeds(fs, cs, lim["max_entry_compression_ratio"]):
                 return True
         tu += fs
         tc += cs
@@ -63,7 +89,7 @@ def ref_is_bomb(entries, lim):
     if tu > 0:
         if tc <= 0:
             return True
-        if Fraction(tu, tc) > Fraction(lim["max_total_compression_ratio"]):
+        if _exceeds(tu, tc, lim["max_total_compression_ratio"]):
             return True
     return False
 
@@ -674,6 +700,218 @@ def uhistory_part(arg):
     return {"ev": ev, "fails": fails, "outs": outs, "samples": [{"history_mode": "util", "carrier": carrier, "histories": n_h}]}
 
 
+# ------------------------------------------------------------------ (e) limit values: ints AND floats, fractional / 0 / inf / > 2**53
+
+INF = float("inf")
+FAR = {"max_entries": 10 ** 9, "max_total_uncompressed_bytes": 1 << 62, "max_single_uncompressed_bytes": 1 << 62,
+       "max_total_compression_ratio": 1e12, "max_entry_compression_ratio": 1e12}
+# all ratio limits are dyadic rationals (exact as floats), so "ratio > limit" in float arithmetic and in exact
+# arithmetic agree for the small integer sizes used here: the oracle demands nothing beyond the statement.
+RATIO_LIMITS = {"quick": (0.0, 0.25, 0.5, 0.75, 1.0, 1.5, 2.25, 2.5, 2.75, 3.5, INF),
+                "thorough": tuple(k / 4 for k in range(17)) + (0.125, 1e12, INF)}
+B53 = 2 ** 53
+
+
+def _ratio_alpha(tier):
+    cs_all = (0, 1, 2, 4) if tier == "quick" else (0, 1, 2, 3, 4)
+    return [(fs, cs, False) for fs in range(16) for cs in cs_all] + [(15, 0, True)]
+
+
+RATIO_ALPHA_3 = [(fs, cs, False) for fs in (0, 1, 2, 3, 5, 7, 10) for cs in (0, 1, 2, 4)] + [(15, 0, True)]
+HUGE_ALPHA = [(B53 + d, B53, False) for d in (-1, 0, 1, 2)] + [(0, 0, False)]
+
+
+def limit_lattices(tier):
+    """name -> (list of limit dicts, list of (alphabet, max vector length))"""
+    def grid(d):
+        return [dict(zip(d, vals)) for vals in itertools.product(*d.values())]
+    rl = RATIO_LIMITS[tier]
+    out = {}
+    ratio = [dict(FAR, max_total_compression_ratio=t, max_entry_compression_ratio=e) for t in rl for e in rl]
+    out["ratio"] = [(ratio, _ratio_alpha(tier), 2)]
+    if tier != "quick":
+        rq = RATIO_LIMITS["quick"]
+        out["ratio"].append(([dict(FAR, max_total_compression_ratio=t, max_entry_compression_ratio=e) for t in rq for e in rq],
+                             RATIO_ALPHA_3, 3))
+    mixed = dict(LIMIT_LATTICE, max_total_compression_ratio=(1.5, 2.5), max_entry_compression_ratio=(2.5, 3.5))
+    out["mixed"] = [(grid(mixed), ENTRY_ALPHA, 2 if tier == "quick" else 3)]
+    degenerate = {"max_entries": (0, 1), "max_total_uncompressed_bytes": (0, 1), "max_single_uncompressed_bytes": (0, 1),
+                  "max_total_compression_ratio": (0.0, 0.5), "max_entry_compression_ratio": (0.0, 0.5)}
+    out["degenerate"] = [(grid(degenerate), ENTRY_ALPHA, 2)]
+    huge = [dict(FAR, max_single_uncompressed_bytes=s, max_total_uncompressed_bytes=t)
+            for s in (B53, B53 + 1) for t in (2 * B53 + 1, 2 * B53 + 2)]
+    out["huge"] = [(huge, HUGE_ALPHA, 2)]
+    return out
+
+
+def _decide(infos, lim):
+    """-> (True | False | None, error text): does validate_zipfile reject these infos under ZipBombLimits(**lim)?"""
+    from sharepoint2text.parsing.exceptions import ExtractionZipBombError
+    from sharepoint2text.parsing.extractors.util.zip_bomb import ZipBombLimits, validate_zipfile
+    try:
+        validate_zipfile(_ZF(infos), limits=ZipBombLimits(**lim))
+        return False, None
+    except ExtractionZipBombError:
+        return True, None
+    except Exception as e:  # noqa
+        return None, f"{type(e).__name__}: {e}"
+
+
+def limits_mem_part(arg):
+    k, n, tier = arg
+    ev = 0
+    fails = []
+    outs = {}
+    idx = 0
+    n_raise = 0
+    for name, blocks in limit_lattices(tier).items():
+        for lims, alpha, maxlen in blocks:
+            for L in range(0, maxlen + 1):
+                for vec in itertools.product(alpha, repeat=L):
+                    idx += 1
+                    if idx % n != k:
+                        continue
+                    infos = [_Info(fs, cs, d, i) for i, (fs, cs, d) in enumerate(vec)]
+                    for lim in lims:
+                        ev += 1
+                        exp = ref_is_bomb(vec, lim)
+                        got, err = _decide(infos, lim)
+                        case = {"entries": [list(v) for v in vec], "limits": lim}
+                        if got is None:
+                            n_raise += 1
+                            if n_raise <= 40:
+                                fails.append(("raises", "predicate", case, f"limits {lim}: {err}"))
+                            continue
+                        key = f"{name}:{'reject' if got else 'accept'}"
+                        outs[key] = outs.get(key, 0) + 1
+                        if got != exp and len(fails) < 340:
+                            fails.append(("predicate", "predicate", case,
+                                          f"[{name} lattice] entries {vec} limits {lim}: rejected={got}, reference says bomb={exp}"))
+    return {"ev": ev, "fails": fails, "outs": outs, "samples": []}
+
+
+# ---- (e2) real ZIPs under caller-supplied limits
+
+LIMIT_ZIP_BASES = FORMATS + ["bare"]
+ZIP_RATIO_LIMITS = (0.5, 0.75, 1.5, 2.5, 2.75, 7.75, 199.5, 500.5)
+ZIP_ENTRY_POINTS = ("open_zipfile", "validate_zip_bytesio")
+_LZ = {}
+
+
+def _quarter_bracket(num, den):
+    """The two multiples of 1/4 around num/den: (largest one < ratio or None, smallest one >= ratio)."""
+    hi = -((-4 * num) // den)          # ceil(4 * ratio)
+    lo = hi - 1
+    return (lo / 4 if lo >= 0 else None), hi / 4
+
+
+def limit_zip_variants(base):
+    """(label, bytes, limits dict) for one base container; deterministic, memoised per process."""
+    if base in _LZ:
+        return _LZ[base]
+    from verif.gen import zipforge
+    members = [] if base == "bare" else _members(minimal(base))
+    ents = []
+    if members:
+        # sizes as the reference writer lays the members out again (its deflate output may differ from the original's)
+        with zipfile.ZipFile(io.BytesIO(zipforge.zipforge(list(members)))) as z:
+            ents = [(i.file_size, i.compress_size) for i in z.infolist() if not i.is_dir()]
+    u0 = sum(f for f, c in ents)
+    c0 = sum(c for f, c in ents)
+    lim0 = dict(DEFAULTS, max_total_compression_ratio=1e12, max_entry_compression_ratio=1e12)
+    out = []
+
+    def forged(fs, cs):
+        return zipforge.zipforge(list(members) + [{"name": "extra/pad.bin", "data": b"x" * 8, "method": 0, "file_size": fs, "compress_size": cs}])
+    rmax = max([Fraction(f, c) for f, c in ents if f > 0 and c > 0] or [Fraction(0)])
+    for L in ZIP_RATIO_LIMITS:
+        # per-entry ratio: meaningful only where the document's own members stay below L
+        if rmax < Fraction(L):
+            for d in (-1, 0, 1):
+                out.append((f"entry:{L}:{d:+d}", forged(int(L * 1000) + d, 1000), dict(lim0, max_entry_compression_ratio=L)))
+        # total ratio: (u0 + f) / (c0 + c) == L exactly, with c0 + c a multiple of 8
+        c = 100000 + (-(c0 + 100000)) % 8
+        f = int(L * (c0 + c)) - u0
+        if f > 1:
+            for d in (-1, 0, 1):
+                out.append((f"total:{L}:{d:+d}", forged(f + d, c), dict(lim0, max_total_compression_ratio=L)))
+    if ents:
+        # nothing forged: the document as written, limits on the quarter steps around its own ratios
+        data = zipforge.zipforge(list(members))
+        num, den = max(((f, c) for f, c in ents if f > 0 and c > 0), key=lambda p: Fraction(*p))
+        for tag, L in zip(("below", "above"), _quarter_bracket(num, den)):
+            if L is not None:
+                out.append((f"own-entry:{tag}", data, dict(lim0, max_entry_compression_ratio=L)))
+        for tag, L in zip(("below", "above"), _quarter_bracket(u0, c0)):
+            if L is not None:
+                out.append((f"own-total:{tag}", data, dict(lim0, max_total_compression_ratio=L)))
+    if base in ("bare", "docx", "ods", "epub"):
+        for d in (-1, 0, 1):
+            fs = B53 + 1 + d
+            out.append((f"huge{d:+d}", forged(fs, fs // 100), dict(lim0, max_single_uncompressed_bytes=B53 + 1, max_total_uncompressed_bytes=1 << 62)))
+    _LZ[base] = out
+    return out
+
+
+def run_limit_zip(base, label, entry):
+    """-> (failures [(clause, msg)], outcome, reference)"""
+    from sharepoint2text.parsing.exceptions import ExtractionZipBombError
+    from sharepoint2text.parsing.extractors.util import zip_bomb
+    for lb, data, lim in limit_zip_variants(base):
+        if lb == label:
+            break
+    else:
+        raise KeyError(label)
+    with zipfile.ZipFile(io.BytesIO(data)) as z:
+        ents = [(i.file_size, i.compress_size, i.is_dir()) for i in z.infolist()]
+    exp = ref_is_bomb(ents, lim)
+    fails = []
+    positions = (0,) if entry == "open_zipfile" else (0, 3, len(data))
+    got = None
+    for pos in positions:
+        bio = io.BytesIO(data)
+        bio.seek(pos)
+        try:
+            limits = zip_bomb.ZipBombLimits(**lim)
+            if entry == "open_zipfile":
+                zip_bomb.open_zipfile(bio, limits=limits).close()
+            else:
+                zip_bomb.validate_zip_bytesio(bio, limits=limits)
+            got = "ok"
+        except ExtractionZipBombError:
+            got = "bomb"
+        except Exception as e:  # noqa
+            got = "escape:" + type(e).__name__
+            fails.append(("raises", f"{base} {label} via {entry} (limits {lim}): {type(e).__name__}: {e}"))
+            break
+        if (got == "bomb") != exp:
+            fails.append(("limits", f"{base} {label} via {entry} at position {pos}: rejected={got == 'bomb'}, reference bomb={exp} "
+                                    f"(limits {lim}; non-directory entries (file_size, compress_size): "
+                                    f"{[(f, c) for f, c, d in ents if not d][-4:]})"))
+            break
+        if entry == "validate_zip_bytesio" and bio.tell() != pos:
+            fails.append(("position", f"{base} {label}: validate_zip_bytesio moved the stream from {pos} to {bio.tell()}"))
+            break
+    return fails, got, exp
+
+
+def limits_zip_part(arg):
+    base, tier = arg
+    ev = 0
+    fails = []
+    outs = {}
+    n_var = 0
+    for label, data, lim in limit_zip_variants(base):
+        n_var += 1
+        for entry in ZIP_ENTRY_POINTS:
+            fl, got, exp = run_limit_zip(base, label, entry)
+            ev += 1 if entry == "open_zipfile" else 3
+            key = f"{label.split(':')[0]}:{'bomb' if exp else 'ok'}:{got}"
+            outs[key] = outs.get(key, 0) + 1
+            fails += [(c, base, {"limits_zip": label, "entry": entry}, m) for c, m in fl]
+    return {"ev": ev, "fails": fails, "outs": outs, "samples": [{"limits_zip_base": base, "variants": n_var}]}
+
+
 def reexec(fmt, case):
     if "history" in case:
         with _Monitor() as mon:
@@ -681,18 +919,16 @@ def reexec(fmt, case):
         return fl
     if "uhistory" in case:
         return run_uhistory([tuple(x) for x in case["uhistory"]], case["carrier"])[0]
+    if "limits_zip" in case:
+        return run_limit_zip(fmt, case["limits_zip"], case["entry"])[0]
     if fmt == "predicate":
         from sharepoint2text.parsing.exceptions import ExtractionZipBombError
         from sharepoint2text.parsing.extractors.util.zip_bomb import ZipBombLimits, validate_zipfile
         vec = [tuple(v) for v in case["entries"]]
         exp = ref_is_bomb(vec, case["limits"])
-        try:
-            validate_zipfile(_ZF([_Info(fs, cs, d, i) for i, (fs, cs, d) in enumerate(vec)]), limits=ZipBombLimits(**case["limits"]))
-            got = False
-        except ExtractionZipBombError:
-            got = True
-        except Exception as e:  # noqa
-            return [("raises", str(e))]
+        got, err = _decide([_Info(fs, cs, d, i) for i, (fs, cs, d) in enumerate(vec)], case["limits"])
+        if got is None:
+            return [("raises", err)]
         return [("predicate", f"rejected={got}, reference {exp}")] if got != exp else []
     if case.get("variant") in ("minimal", "rich"):
         r = ordering_part((fmt, "thorough"))
@@ -763,6 +999,9 @@ def embeds(small, big):
 def fingerprint_view(case):
     if "entries" in case:
         return {"entries": case["entries"]}
+    if "limits_zip" in case:
+        # one shape per (base container, clause family): the limit value and the -1/0/+1 offset are not part of the shape
+        return {"limits_zip": case["limits_zip"].split(":")[0].rstrip("+-01")}
     return case
 
 
@@ -776,13 +1015,16 @@ def run(ctx):
     nu = 4 if ctx.tier == "quick" else 10
     r5 = P.run_all("verif.props.C11", "uhistory_part", [(c, k, nu, ctx.tier) for c in CARRIERS for k in range(nu)], n=ctx.ncpu,
                    hard_timeout=1800)
+    r6 = P.run_all("verif.props.C11", "limits_mem_part", [(k, n, ctx.tier) for k in range(n)], n=ctx.ncpu, hard_timeout=1800)
+    r7 = P.run_all("verif.props.C11", "limits_zip_part", [(b, ctx.tier) for b in LIMIT_ZIP_BASES], n=ctx.ncpu, hard_timeout=1800)
     ev = 0
     fails = []
     outs = {}
     samples = []
     herr = []
-    parts = {"predicate": 0, "container": 0, "ordering": 0, "history": 0, "history-util": 0}
-    for name, res in (("predicate", r1), ("container", r2), ("ordering", r3), ("history", r4), ("history-util", r5)):
+    parts = {"predicate": 0, "container": 0, "ordering": 0, "history": 0, "history-util": 0, "limits-mem": 0, "limits-zip": 0}
+    for name, res in (("predicate", r1), ("container", r2), ("ordering", r3), ("history", r4), ("history-util", r5),
+                      ("limits-mem", r6), ("limits-zip", r7)):
         for st, r, _ in res:
             if st != "done":
                 herr.append(f"{name} task failed: {st}: {str(r)[-600:]}")
@@ -806,10 +1048,23 @@ def run(ctx):
                       "(d1) all ordered pairs over the 63 (format, variant) symbols + all triples of 7 variants within each format; "
                       "(d2) all ordered triples over 40 helper-level steps; ") +
                    "every step judged against the reference on its own bytes and limits, member reads need a covering validation; "
+                   "(e) limit values: (e1) validate_zipfile on ZipInfo vectors x four limit lattices - 'ratio' ("
+                   + (f"{len(RATIO_LIMITS[ctx.tier])}^2 pairs of ratio limits incl. 0, fractions below 1, quarter steps, +inf; every vector of <= 2 "
+                      f"entries over {len(_ratio_alpha(ctx.tier))} symbols" + ("" if ctx.tier == "quick" else
+                                                                           f" + every vector of 3 entries over {len(RATIO_ALPHA_3)} symbols x 11^2 pairs")) +
+                   f"), 'mixed' (32 settings: the integer lattice of (a) x half-step ratio limits, vectors of <= {2 if ctx.tier == 'quick' else 3} "
+                   "entries over the 43 symbols of (a)), 'degenerate' (32 settings: every limit 0 / 1, ratios 0.0 / 0.5), 'huge' (size limits "
+                   "2**53 / 2**53+1 and 2**54+1 / 2**54+2, entry sizes 2**53-1..2**53+2); (e2) 9 minimal documents + a bare ZIP x {open_zipfile, "
+                   "validate_zip_bytesio} under caller-supplied limits: forged member at L-1/0/+1 byte of the per-entry / total ratio limit "
+                   f"L in {list(ZIP_RATIO_LIMITS)}, the document's own max entry ratio / total ratio bracketed by the neighbouring quarter steps, "
+                   "ZIP64 member at single-size limit 2**53+1 -1/0/+1; "
                    "distinct_nontrivial = distinct (part, variant, outcome) classes",
            "per_part": parts,
            "bounds": {"history_length": 2 if ctx.tier == "quick" else 3, "carriers": CARRIERS, "history_variants": HIST_VARIANTS,
-                      "helper_steps": len(UDOCS) * len(UENTRIES), "helper_limits": sorted(ULIMITS)},
+                      "helper_steps": len(UDOCS) * len(UENTRIES), "helper_limits": sorted(ULIMITS),
+                      "ratio_limits": [str(x) for x in RATIO_LIMITS[ctx.tier]], "ratio_vector_length": 2 if ctx.tier == "quick" else 3,
+                      "limit_lattices": ["ratio", "mixed", "degenerate", "huge"], "zip_ratio_limits": list(ZIP_RATIO_LIMITS),
+                      "zip_limit_bases": LIMIT_ZIP_BASES, "zip_entry_points": list(ZIP_ENTRY_POINTS)},
            "outcomes": dict(sorted(outs.items())[:160]), "samples": samples[:6], "exhaustive": True}
     return {"coverage": cov, "failures": fails, "harness_errors": herr,
             "assumptions": ["whether directory entries count towards the entry-count limit is not settled by the statement: count-boundary "
